@@ -195,8 +195,11 @@ def clause_rollback_arm(prog, rep):
         reg_calls = [x for x in f.live_calls() if x.bb in region]
         # must-pass calls: every path from the success edge to a return passes them
         for name in FOLLOW_MUST + ["process_message"]:
-            blocks = frozenset(x.bb for x in reg_calls if x.name == name and
-                               (K.is_storage_trait_call(x, name) or (name == "process_message" and last_seg(x.self_adt) == "MDK")))
+            # the call itself, or an mdk-core helper every Ok path of which makes it (bookkeeping moved into `finish_rollback(..)`)
+            mp = A.MustPass(prog, lambda y, name=name: K.is_storage_trait_call(y, name))
+            blocks = frozenset(x.bb for x in reg_calls if
+                               (x.name == name and (K.is_storage_trait_call(x, name) or (name == "process_message" and last_seg(x.self_adt) == "MDK")))
+                               or (name != "process_message" and any(t.crate == "mdk_core" and not t.is_test_like() and mp.fn(t) for t in prog.call_targets(x))))
             esc = False
             for s in succ_starts:
                 r = A.reach_without_edges(f, s, set(), blocks) if s not in blocks else set()
@@ -213,6 +216,23 @@ def clause_rollback_arm(prog, rep):
                         rep.check(bool(src & variant_payload), "rollback-arm", "%s/after-rollback/%s/epoch-arg" % (entry, name),
                                   "invalidation threshold is the rollback target epoch",
                                   "invalidation threshold is not the rollback target epoch", x.loc())
+                    elif x.bb in blocks:
+                        # made inside a helper: the helper's threshold is one of its parameters, and the caller passes the target epoch there
+                        for t in prog.call_targets(x):
+                            if t.crate != "mdk_core" or t.is_test_like():
+                                continue
+                            for y in t.live_calls():
+                                if not K.is_storage_trait_call(y, name) or "p" not in y.args[-1]:
+                                    continue
+                                ps = [l for l in A.copy_sources(t, y.args[-1]["p"][0]) if isinstance(l, int) and 1 <= l <= t.nargs]
+                                ok_arg = False
+                                for l in ps:
+                                    if l - 1 < len(x.args) and "p" in x.args[l - 1]:
+                                        src = set(z for z in A.copy_sources(f, x.args[l - 1]["p"][0]) if isinstance(z, tuple))
+                                        ok_arg = ok_arg or bool(src & variant_payload)
+                                rep.check(ok_arg, "rollback-arm", "%s/after-rollback/%s/epoch-arg" % (entry, name),
+                                          "invalidation threshold (through %s) is the rollback target epoch" % t.name,
+                                          "invalidation threshold is not the rollback target epoch", y.loc())
         for name in FOLLOW_EXISTS:
             xs = [x for x in reg_calls if K.is_storage_trait_call(x, name)]
             ok = False
@@ -222,6 +242,18 @@ def clause_rollback_arm(prog, rep):
                     dep, _, _ = f.depends_on(x.args[-1]["p"][0])
                     if any(y.dst and y.dst[0] in dep for y in ff):
                         ok = True
+            # ... or both inside one helper called on the success side
+            for x in reg_calls:
+                for t in prog.call_targets(x):
+                    if t.crate != "mdk_core" or t.is_test_like():
+                        continue
+                    hx = [y for y in t.live_calls() if K.is_storage_trait_call(y, name)]
+                    hf = [y for y in t.live_calls() if K.is_storage_trait_call(y, "find_failed_messages_for_retry")]
+                    for y in hx:
+                        if hf and "p" in y.args[-1]:
+                            dep, _, _ = t.depends_on(y.args[-1]["p"][0])
+                            if any(z.dst and z.dst[0] in dep for z in hf):
+                                ok = True
             rep.check(ok, "rollback-arm", "%s/after-rollback/%s" % (entry, name),
                       "records returned by find_failed_messages_for_retry are marked retryable",
                       "records needing a re-fetch are not marked retryable after rollback", c.loc())
